@@ -177,9 +177,8 @@ def _finish_returns(t, top):
     """guard clauses that ended up at the top of a fn / closure body only after floating are an if / else chain as well"""
     def conv(b):
         for _ in range(8):
-            if b[0] == "early" and b[1] and all(v[0] == "ret" and c != ("lit", "match") for c, v in b[1]):
-                e2, tail = _guards_to_try(b[1], b[2])
-                b = _unreturn(("early", e2, tail)) if e2 else tail
+            if b[0] == "early" and b[1] and b[1][-1][1][0] == "ret" and b[1][-1][0] != ("lit", "match"):
+                b = _ret_chain(b[1], b[2])
             elif b[0] == "early" and b[2][0] == "early":
                 b = ("early", list(b[1]) + list(b[2][1]), b[2][2])       # consecutive guard clauses are one list
             else:
@@ -1394,9 +1393,8 @@ class Norm:
                         tail = ("seq", rest, tail[2]) if len(rest) > 1 or (rest and tail[2] != ("lit", "()")) else rest[0] if rest else tail[2]
                     else:
                         tail = ("lit", "()")
-                if id(e) in self._ret_blocks and all(v[0] == "ret" and c != ("lit", "match") for c, v in early2):
-                    early2, tail = _guards_to_try(early2, tail)
-                    return _unreturn(("early", early2, tail)) if early2 else tail      # guard clauses of the function body are an if / else chain
+                if id(e) in self._ret_blocks:
+                    return _ret_chain(early2, tail)      # guard clauses of the function body are an if / else chain
                 if id(e) in self._loop_blocks and all(v == ("continue",) and c != ("lit", "match") for c, v in early2):
                     # `if c { continue }` filters of a loop body are an if / else chain around the rest of the body
                     return _unreturn(("early", [(c, ("ret", ("lit", "()"))) for c, _v in early2], tail))
@@ -1577,6 +1575,19 @@ def _mk_iflet(pat, scr, then, els):
         return ("early", [(_let(pat, scr), then)], ("lit", "()"))
     return _mk_if(_let(pat, scr), then, els)        # matches!(x, PAT) == let PAT = x
 
+
+
+def _ret_chain(early, tail):
+    """the trailing run of `if c { return v }` guard clauses of a return block becomes an if / else chain over what follows;
+    clauses before an entry that cannot be converted (a match statement with returning arms) stay guard clauses"""
+    k = len(early)
+    while k > 0 and early[k - 1][1][0] == "ret" and early[k - 1][0] != ("lit", "match"):
+        k -= 1
+    pre, suf = list(early[:k]), list(early[k:])
+    if suf:
+        suf, tail = _guards_to_try(suf, tail)
+        tail = _unreturn(("early", suf, tail)) if suf else tail
+    return ("early", pre, tail) if pre else tail
 
 
 def _guards_to_try(early, tail):
